@@ -14,4 +14,7 @@ let () =
   pr "enum" c03_enum_mismatches;
   pr "classification" c03_classification_mismatches;
   pr "registry" c03_registry_mismatches;
+  pr "enum@after-use" c03_enum_mismatches_after;
+  pr "classification@after-use" c03_classification_mismatches_after;
+  pr "registry@after-use" c03_registry_mismatches_after;
   print_endline "END"
